@@ -99,7 +99,7 @@ func (f *Ash) Call(s *slip.Scope, args slip.List, depth int) (result slip.Object
 		if (*big.Int)(ti).Sign() < 0 {
 			bi.Neg(&bi)
 		}
-		result = (*slip.Bignum)(&bi)
+		result = intReduce(&bi)
 	default:
 		slip.TypePanic(s, depth, "integer", ti, "integer")
 	}
